@@ -279,7 +279,7 @@ def local_env(f):
     return env
 
 
-PATHKEYS = ('path', 'recv', 'rhs', 'lhs', 'init', 'operand', 'callee_expr', 'cond')
+PATHKEYS = ('path', 'recv', 'rhs', 'lhs', 'init', 'operand', 'callee_expr', 'cond', 'size')
 
 
 def apply_env(e, env):
